@@ -170,6 +170,23 @@ def run(tier):
                 v.fail({"prop": PROP, "kind": "exported file under call orders", "owner": "universe", "what": "out/shared.ts",
                         "types": exportchecks.types_in(r_["steps"])},
                        {"history": exportchecks.describe_steps(r_["steps"]), "other": b.get("other"), "files": r_["blob_texts"]})
+    # the same calls in another order: every permutation of a multiset of calls (entry point x type x spelling of
+    # the directory) must leave the same directory (Trace_Confluence.tla with key = the multiset)
+    hres = exportchecks.run_slice("hist", tier, ostats)
+    perm = sorted(({"key": json.dumps(sorted(exportchecks.describe_steps([s_]) for s_ in r_["steps"])), "sha": r_["sha"], "hid": n_} for n_, r_ in enumerate(hres)),
+                  key=lambda x: (x["key"], x["sha"]))
+    cpath = os.path.join(vlib.TMP, "c13-perm.ndjson")
+    vlib.write_ndjson(cpath, perm)
+    pa = vlib.run_tlc("Trace_Confluence", "Trace_Confluence.cfg", workers=8, timeout=1200, env={"VERIF_TRACE": cpath}, tags=("BAD",), metatag="c13perm")
+    vlib.tlc_must_succeed(pa, "Trace_Confluence (permutations)")
+    if pa.distinct != len(perm) + 1:
+        raise ToolError("permutation pass judged %d of %d histories" % (pa.distinct - 1, len(perm)))
+    for i_ in pa.payloads("BAD"):
+        a_, b_ = hres[perm[i_ - 1]["hid"]], hres[perm[i_ - 2]["hid"]]
+        v.fail({"prop": PROP, "kind": "directory after the same calls in another order", "owner": "universe", "what": "tree",
+                "types": exportchecks.types_in(a_["steps"])},
+               {"history": exportchecks.describe_steps(a_["steps"]), "other_order": exportchecks.describe_steps(b_["steps"]),
+                "tree": a_["final_tree"], "other_tree": b_["final_tree"]})
     rc = v.finish()
     if differing < 5:
         v.note("only %d types had a different dependencies() order between the builds" % differing)
@@ -179,7 +196,7 @@ def run(tier):
            "independent_builds": len(builds), "types": len(units), "observables": len(recs),
            "types_whose_dependency_order_differed_between_builds": differing,
            "items_with_several_statement_orders_in_one_macro_process": multi,
-           "thread_runs": len(truns), "thread_counts": [1, 2, 4, 8], "call_order_histories": len(ores), "exhaustive": False,
+           "thread_runs": len(truns), "thread_counts": [1, 2, 4, 8], "call_order_histories": len(ores), "permuted_call_histories": len(hres), "exhaustive": False,
            "rule": "observables = {decl, decl_concrete, name, inline, inline_flattened, export_to_string, output_path, DOCS} of every type of the dependency-graph corpus + every exported file, under 2/4 independent from-scratch builds; + every file of the exporter universe exported by 1/2/4/8 threads under shuffled root orders; each observable must have one value (judged by TLC); + every sequence of <= 4 exports over 7 types sharing one file: same exported set => same bytes"}
     vlib.write_evidence(PROP, tier, "model_checking", cov,
                         ["an independent build = separate workspace and target directory (the proc-macro runs in a fresh process with fresh hash seeds)",
